@@ -64,6 +64,9 @@ func GenC18Script(t *rapid.T, thorough bool) *Script {
 					w.PodAnnots["kai.scheduler/segment-topology-required-placement"] = "rack"
 				}
 			}
+			if w.Kind != "tfjob" && rapid.IntRange(0, 3).Draw(t, "scaleddown") == 0 {
+				w.ScaledDown = rapid.IntRange(1, 2).Draw(t, "scaledby")
+			}
 		case "mpi":
 			w.MinAvailable = pick(t, "minavail", 0, 0, 2)
 			w.Delayed = rapid.Bool().Draw(t, "delayed")
